@@ -486,15 +486,21 @@ func filterpath(peer *peer, path, old *table.Path) *table.Path {
 	if y := peer.IsFamilyEnabled(bgp.RF_RTC_UC); y && path.GetFamily() != bgp.RF_RTC_UC {
 		if !peer.interestedIn(path) {
 			peer.fsm.logger.Debug("Filtered by Route Target Constraint, ignore", slog.Any("Path", path))
-			if old == nil {
-				return nil
+			if path.IsWithdraw && peer.hasPathAlreadyBeenSent(path) {
+				// the peer lost its interest while this withdrawal was on its
+				// way and the membership withdrawal no longer saw the route:
+				// the peer still holds it and has to be told.
+			} else {
+				if old == nil {
+					return nil
+				}
+				if !peer.interestedIn(old) && !peer.hasPathAlreadyBeenSent(old) {
+					peer.fsm.logger.Debug("Old path filtered by Route Target Constraint, ignore", slog.Any("Path", old))
+					return nil
+				}
+				path = old.Clone(true)
+				old = nil
 			}
-			if !peer.interestedIn(old) {
-				peer.fsm.logger.Debug("Old path filtered by Route Target Constraint, ignore", slog.Any("Path", old))
-				return nil
-			}
-			path = old.Clone(true)
-			old = nil
 		}
 	}
 
